@@ -229,6 +229,26 @@ CHECKS = {
                    "not modelled (the observed interleaving is the input); stop_timeout expiry is "
                    "outside the model (runs use a long stop_timeout).",
         design_ref="DESIGN.md section 6/C12"),
+    'C05': dict(
+        text="Model/Init.v is init_sblock, the three start-up phases with _run_tasks and the early "
+             "initialisation by a pending event, for any list of blocks, any acyclic init-time event "
+             "topology and any creation order. Theorems (Props/C05.v), for every run of the model: "
+             "each block runs restore/init_regular/init_from_value at most once each and in this order "
+             "(invariant over the mutually recursive init/event/output cascade); a pending event "
+             "completes the synchronous steps before the handler; init_async only for blocks still "
+             "uninitialised with a positive init_timeout, one task per block, total wait <= the "
+             "largest init_timeout, a routine finishing within its timeout is never cancelled. Tie: "
+             "call logs, wait_init() outcome and the duration of the asynchronous phase of probe blocks, "
+             "InitAsync and ValuePoll must equal the model's. NOT a theorem: independence of the "
+             "creation order and 'wait_init returns => all outputs defined and running' are decided by "
+             "the monitor on exhaustive runs of every creation order of each sampled configuration.",
+        technique="Coq proof (invariant by induction on the cascade depth) + model/implementation "
+                  "correspondence and monitor by vm_compute; exhaustive creation-order enumeration",
+        level_note="Trusted: Coq kernel/vm_compute, hand-written model tied by this run's correspondence; "
+                   "partial: order-independence and the wait_init/first-evaluation clause are checked "
+                   "per run, not proved; timers of one instant (completion == timeout) and cyclic "
+                   "event topologies are excluded from generation.",
+        design_ref="DESIGN.md section 6/C05"),
 }
 
 NOT_YET = "check not built yet in this round (planned: Coq model + theorems + correspondence, see DESIGN.md section 6)"
